@@ -335,6 +335,73 @@ CHECKS["C20"] = dict(
                "of real QMap objects replayed through the spec's state "
                "transformers by TLC (GroupMapTrace.tla)"))
 
+CHECKS["C07"] = dict(
+    engine="Preproc", category="model_checking",
+    text=("Preproc.tla declares for each of the six steps its footprint "
+          "(columns owned / created) and the relations its result owes; "
+          "PreprocMC.tla checks the frame condition on pipelines over "
+          "column versions. Every step x option value (6 contact-point "
+          "methods, 3 regions x 2 strategies) x prefix is applied to "
+          "synthetic curves of all models (noise, tilt, drift, lagged "
+          "turning point) and to recorded curves; the effect of a step is "
+          "the difference between prefix and prefix+step on fresh curves. "
+          "TLC checks per application: point count kept, only owned columns "
+          "changed/created, nothing lost, and the owed relations: tip = "
+          "height + force/k, constant change with zero pre-contact mean / "
+          "zero at the contact index, slope correction linear in the chosen "
+          "abscissa, vanishing at the region border, data outside the "
+          "region bit-identical, baseline trend removed; one segment switch "
+          "at the farthest point; strictly monotonic height columns per "
+          "segment."),
+    design_ref="5 (C07), 3.3",
+    note=TB + "Relation flags are computed by the harness with explicit "
+              "tolerances.",
+    technique=("TLA+ footprint table and frame condition (TLC); recorded "
+               "step applications validated by TLC (PreprocTrace.tla)"))
+CHECKS["C08"] = dict(
+    engine="Poc", category="model_checking",
+    text=("Poc.tla transcribes the dispatcher (clip before the first "
+          "maximum, fallback to the middle) and, exactly over integer force "
+          "arrays with rational arithmetic, deviation_from_baseline and "
+          "frechet_direct_path (as sets: exact ties are decided by float "
+          "rounding); PocMC.tla checks on all arrays of length <= 7 over "
+          "0..2 that results are valid indices inside the approach part and "
+          "invariant under 3f+2. The real compute_poc is run on all those "
+          "arrays plus thousands of random baseline+ramp integer arrays "
+          "(length 10-45) and TLC compares with the transcription; all six "
+          "estimators are checked for the envelope (never raises, valid "
+          "integer index, same with ret_details) on integer arrays, on "
+          "synthetic / recorded curves rounded to a binary grid (so that "
+          "power-of-two factors and the tested shifts are exact: estimate "
+          "identical; factors 3, 0.3, 1e9 within one sample for the "
+          "arithmetic estimators) and on degenerate inputs (constant, "
+          "decreasing, maximum first, single point, very short, no "
+          "baseline)."),
+    design_ref="5 (C08), 3.3", note=TB + "Estimator accuracy is not judged.",
+    technique=("TLA+ transcription of two estimators over rationals "
+               "model-checked by TLC; real estimators validated case by "
+               "case by TLC (PocTrace.tla)"))
+CHECKS["C17"] = dict(
+    engine="Features", category="model_checking",
+    text=("FeaturesClass.tla holds the class table of the 15 features "
+          "(binary / fraction / magnitude / signed, fit-dependent or not) "
+          "and the order rule; Features.tla checks that features are a "
+          "function of approach data (up to a common force factor), fit and "
+          "contact point only. compute_features is run on synthetic curves "
+          "(5 models, spikes, tilt, 8..900 approach points) and recorded "
+          "good and bad curves in the states fresh / preprocessed / fitted "
+          "/ failed fit / edited after fit / fixed far-away contact point, "
+          "with unsorted name subsets and type filters; TLC checks value "
+          "classes, NaN without a successful fit, sorted order (caller "
+          "order tolerated only for which_type='all' with explicit names, "
+          "as the implementation documents), values belonging to their "
+          "names, the curve being unchanged, invariance under factors 2, "
+          "1/2, 1e9 on force+fit, independence of the retract segment."),
+    design_ref="5 (C17), 3.1", note=TB,
+    technique=("TLA+ feature class table evaluated by TLC on recorded "
+               "compute_features calls (FeaturesTrace.tla); small design "
+               "state machine"))
+
 NOT_APPLICABLE = {
     "C01": ("Recovery of ground-truth parameters to optimiser precision is "
             "numerical convergence of lmfit/MINPACK on real-valued data; it "
